@@ -8,8 +8,18 @@ PROPS = ['Props/C14.lean']
 
 
 def keyfn(case, res, m):
-    ev = res.get('events') or [['-']]
-    return f"{m['rule']}:{ev[-1][0] if m['rule'] != 'unusable-proxy-type' else ev[-1][1]}"
+    # finding key = monitor rule (+ the operation for wrong results; + the type for unusable proxy types)
+    ev = res.get('events') or [['-', '-']]
+    if m['rule'] in ('traceback', 'hang', 'call-failed', 'lost-update'):
+        return m['rule']
+    if m['rule'] == 'unusable-proxy-type':
+        return f"{m['rule']}:{ev[-1][1]}"
+    if m['rule'] == 'error':
+        k = len(ev) - 1
+        addr = case['ops'][k].get('addr') if 0 <= k < len(case['ops']) else None
+        kind = next((o['kind'] for o in case['objs'] if o['addr'] == addr), 'view')
+        return f"error:{kind}"
+    return f"{m['rule']}:{ev[-1][0]}"
 
 
 def run(chk):
